@@ -155,6 +155,7 @@ func predReexec(c reexecCase, o *evid.Obs) error {
 	}
 	o.Tag("kind:" + c.Q.Kind)
 	differs, equivalent := false, false
+	failed := 0
 	for i, p := range c.Params {
 		freshPlan, err := prepare(c.Q)
 		if err != nil {
@@ -163,15 +164,16 @@ func predReexec(c reexecCase, o *evid.Obs) error {
 		fresh, ferr := safeRun(freshPlan, p)
 		reused, rerr := safeRun(plan, p)
 		if ferr != nil {
-			if i == 0 {
-				o.Discard("query-rejected")
-				return nil
-			}
+			// a query the planner rejects while rendering (e.g. a `d` unit) has to be rejected
+			// identically on every execution: keep executing, the plan must not "learn"
 			if rerr == nil {
 				return fmt.Errorf("query %q execution %d: a fresh plan fails (%v) but the re-executed plan does not", c.Q.Text(), i+1, ferr)
 			}
-			o.Discard("params-rejected")
-			return nil
+			if rerr.Error() != ferr.Error() {
+				return fmt.Errorf("query %q execution %d: the re-executed plan fails with %q, a fresh plan with %q", c.Q.Text(), i+1, rerr, ferr)
+			}
+			failed++
+			continue
 		}
 		if rerr != nil {
 			return fmt.Errorf("query %q: execution %d of the prepared plan fails (%v); a fresh plan with the same parameters succeeds", c.Q.Text(), i+1, rerr)
@@ -198,6 +200,15 @@ func predReexec(c reexecCase, o *evid.Obs) error {
 			}
 			equivalent = true
 		}
+	}
+	if failed > 0 {
+		if failed == len(c.Params) {
+			o.Tag("rejected-identically-every-time")
+			o.Discard("query-rejected")
+		} else {
+			o.Discard("params-rejected")
+		}
+		return nil
 	}
 	st := statefulStages(c.Q)
 	for _, s := range st {
